@@ -232,6 +232,9 @@ def _run(scn, log: EventLog, stats: Stats):
     import warnings
 
     warnings.simplefilter("ignore")
+    from sim.core import fresh_models
+
+    fresh_models()
     descrs = descriptions(scn)
     pipe = scn["pipe"]
     base_env = Env(scn, identity_schedule(scn["tables"]), scn["knobs"])
